@@ -54,7 +54,7 @@ PLAN = {
 CHUNK = 4
 R2_MOD = 8
 # cheap ops whose templates are worth repeating: per-argument state that a failing neighbour call can leave half built
-K5_EXTRA = {"tomo.CircuitResult", "lookup.parse_circuit", "lookup.MUBInfo", "stab.new"}
+K5_EXTRA = {"tomo.CircuitResult", "lookup.parse_circuit", "lookup.MUBInfo", "stab.new", "prep.compress_preparation_circuit"}
 MINIMISE_WALL_S = 75     # per violation class; a longer replay file is still a valid replay file
 
 PROJ_KEYS = ("id", "kind", "op", "pre", "out", "outkind", "faulted", "tag", "reads", "applied", "changed",
